@@ -14,7 +14,7 @@ from framework import coq_bs, coq_z, coq_list
 
 ID = 'C18'
 COQ_IMPORTS = ['C18_Model', 'C18_Heap', 'C18_Obj']
-GENERATORS = ['gen_attr_reserved']
+GENERATORS = ['gen_attr_reserved', 'gen_c18_str']
 DISAGREEMENT_IS_TIE_ONLY = False
 MODELLED_FUNCS = {'sugar/core/meta.py': ['Attr.__init__', 'Attr.__getitem__', 'Attr.__setitem__', 'Attr.__delitem__', 'Attr.__getattr__',
                                          'Attr.copy', 'Attr.update', 'Attr.__iter__', 'Attr.__len__'],
@@ -816,6 +816,29 @@ def _raise_ood():
     raise _OOD('copy')
 
 
+def _obj_oracle(op, regs_before, before, regs, r):
+    """contracts of one step, from first principles on the real objects (independent of the Coq model)"""
+    name = op[0]
+    if name == 'inpl':
+        x = o_nav(regs_before[op[3]], op[4])
+        if r is not x:
+            return 'in-place operation %s did not return the receiver (a %s%s): returned %s' % (
+                op[2][0], o_cls(x), ' with %d elements' % len(o_elems(x)) if o_cls(x) in ('Basket', 'Fts') else '', type(r).__name__)
+    if name == 'pure' and op[2][0] != 'get':
+        x = o_nav(regs_before[op[3]], op[4])
+        if r is x:
+            return 'not-in-place operation %s returned its receiver' % op[2][0]
+        if o_dump(regs_before) != before:
+            return 'not-in-place operation %s changed an existing object (receiver or something reachable from a variable)' % op[2][0]
+        if op[2][0] == 'copy':
+            common = set(reach(x)) & set(reach(r))
+            if common:
+                return 'copy() shares a mutable %s object with its operand' % type(reach(x)[sorted(common)[0]]).__name__
+            if o_dump([r])[1] != o_dump([x])[1]:
+                return 'copy() is not structurally equal to its operand (object graph incl. internal sharing)'
+    return None
+
+
 def impl_obj(case):
     import framework as F, warnings
     regs = [None] * NREGS
@@ -824,8 +847,14 @@ def impl_obj(case):
         warnings.simplefilter('ignore')
         for op in case['ops']:
             try:
+                regs_before = list(regs)
+                before = o_dump(regs_before) if op[0] == 'pure' else None
                 r = obj_do(regs, op)
-                res.append(['obj'] + [r is x for x in regs] if _is_obj(r) else r)
+                why = _obj_oracle(op, regs_before, before, regs, r)
+                if why:
+                    res.append({'viol': why})
+                else:
+                    res.append(['obj'] + [r is x for x in regs] if _is_obj(r) else r)
             except _OOD:
                 res.append({'e': 'OutOfDomain'})
             except Exception as e:
@@ -1149,7 +1178,12 @@ def spec(case, got):
         if not eqplain:
             return 'Meta object does not compare equal to the equivalent dict'
         return None
-    if case['kind'] in ('heap', 'obj'):
+    if case['kind'] == 'obj':
+        for r in got[0]:
+            if isinstance(r, dict) and 'viol' in r:
+                return r['viol']
+        return None
+    if case['kind'] == 'heap':
         return None
     # relational kinds: the implementation-side value IS the verdict (None / [] = no violation)
     if got:
@@ -1214,11 +1248,14 @@ TRUSTED = ['copy.deepcopy, object identity, reference semantics and collections.
            '__setattr__, __delattr__, copy, update, __iter__, __len__) as values (C18_Model.v) and over a heap (C18_Heap.v)',
            'NOT modelled, tied by randomized histories on the real classes only: copy() and in-place / not-in-place behaviour of '
            'BioSeq, BioBasket, FeatureList, Feature, Location (seq.py, fts.py, cane.py)',
-           'tools/gens/c18.py: the reserved key set R is regenerated from dir(Meta) on every run']
+           'tools/gens/c18.py: the reserved key set R is regenerated from dir(Meta) on every run; the table of the BioSeq.str / '
+           'BioBasket.str namespaces (which methods return the receiver, for baskets with 0, 1, 2 sequences) is regenerated by calling them',
+           'object model (C18_Obj.v): BioSeq / BioBasket / FeatureList / Feature / LocationTuple / Location / Meta as cells with identities; '
+           'deepcopy = graph copy; tied to the real classes through the public API on every run']
 ASSUMPTIONS = ['metadata keys are Latin-1 str outside the reserved set R = dir(Meta) + __dunder__ names (open finding F20)',
                'literal values are None/bool/int/str/list/dict (no floats, tuples, sets) in the modelled kinds',
                'heap kind: objects passed to copy() have no internal sharing and no cycles (decided by the model: tree_shaped)']
-LEVEL_TEXT = ('Machine-checked Coq theorems (45, all closed under the global context) over three hand-written models '
+LEVEL_TEXT = ('Machine-checked Coq theorems (52, all closed under the global context) over three hand-written models '
               '(every statement of the modelled Attr methods is executed by the quick tier). '
               '(a) Value level (C18_Model.v): get/set/delete laws incl. key order; attribute access = key access and get-after-set at ANY path; '
               'recursive Mapping->Attr conversion (to_dict(Attr(d)) = d, conversion idempotent); an invariant (unique keys, an Attr never directly holds a '
@@ -1241,7 +1278,15 @@ LEVEL_TEXT = ('Machine-checked Coq theorems (45, all closed under the global con
               'variables leaves every observation -- canonical dump of the object graph incl. identities -- through every other variable '
               'unchanged, and vice versa; by induction over operation sequences), obj_inplace_returns_receiver (receivers of ANY size, the '
               'empty basket included), obj_pure_only_allocates / obj_pure_not_inplace (not-in-place operations leave every existing object '
-              'and every operand as it was), obj_reachable_ok (no dangling reference in any reachable state), obj_graph_copy_fresh. '
+              'and every operand as it was), obj_reachable_ok (no dangling reference in any reachable state), obj_graph_copy_fresh, '
+              'obj_graph_copy_iso / obj_copy_is_isomorphic (the canonical dump behind y = x.copy() EQUALS the dump behind x: classes, slots, '
+              'elements, scalars and identity structure incl. internal sharing and cycles), obj_inplace_elements (on a basket of any size '
+              'element-wise transformations keep the same element objects in order, sort gives a permutation, filter(inplace) a selection in '
+              'order; class and metadata object kept), obj_extend_elements (+= : old elements followed by the operand elements, receiver '
+              'returned). (e) conv_on_every_entry (construction, item assignment, attribute assignment, update(), setdefault store the SAME '
+              'recursively converted value, read back by key and by attribute), conv_list_not_descended; str_namespace_agrees over the '
+              'REGENERATED table of observed behaviour (coq/gen/G_c18_str.v): BioBasket.str.<m>() is the basket exactly when '
+              'BioSeq.str.<m>() works in place, for baskets with 0, 1 and 2 sequences (29 methods). '
               'All models are tied to the real classes by differential testing on every run (object model: same programs on real objects '
               'through the public API, compared on every step result incl. "is" with every variable and on the whole object graph with '
               'identities numbered in first-visit order); the remaining BioSeq / Feature / Location operations are decided by randomized operation '
@@ -1254,7 +1299,7 @@ LEVEL_NOTE = ('Proved for the models only; the models are tied to /repo by testi
               'Object model: residues are modelled for reverse / lower / upper / + / slicing only (no complement / translate), feature '
               'coordinates are carried but never transformed, LocationTuple and Location are immutable in the model (Location.start/stop '
               'edits re-sort on deepcopy: tested only), set operators (&, |, -, ^) compare by deep equality and are tested only, '
-              'the isolation theorem does not prove that the copy is ISOMORPHIC to the original (that is compared on every run). '
+              ''
               'TESTED ONLY (not modelled in Coq): rc / complement / translate / match / find_orfs / set operators / Feature and Location '
               'edits -- 800/30000 random histories of 227 public operations (secondary operands that are sugar objects are snapshotted too) per '
               'run (subjects also read from GFF -- feature and location meta._gff -- and from SJSON), 120/2000 exhaustive nested-edit sweeps (every reachable object of one side edited, both directions, depth up to 11), a 5160-case matrix of match/matchall/find_orfs/copy-chains over all reading-frame selections, 33 re-wrap checks, an 81-case matrix of mapping pairs differing only in None-valued keys through 14 equality forms, a 210-case matrix of in-place operators with tuple/generator/dict-view/iterator operands (identity, alias, meta, content), a '
